@@ -112,6 +112,7 @@ func c10InASNs(l []uint32, known bool, asn uint32) bool {
 var c10Types = map[string]uint16{"a": 1, "ns": 2, "mx": 15, "txt": 16, "aaaa": 28, "https": 65}
 
 type c10Rule struct {
+	all   bool // the regular expression /.*/: every name, the root name included
 	dom   string
 	sub   bool
 	exc   bool
@@ -146,7 +147,9 @@ func c10ParseRule(s string) c10Rule {
 			r.types = append(r.types, q)
 		}
 	}
-	if strings.HasPrefix(s, "||") && strings.HasSuffix(s, "^") {
+	if s == "/.*/" {
+		r.all = true
+	} else if strings.HasPrefix(s, "||") && strings.HasSuffix(s, "^") {
 		r.sub = true
 		r.dom = s[2 : len(s)-1]
 	} else {
@@ -184,7 +187,7 @@ func c10PlainOK(s string) bool {
 
 func (r c10Rule) matches(fqdn string, qt uint16) bool {
 	h := strings.ToLower(strings.TrimSuffix(fqdn, "."))
-	if !(h == r.dom || (r.sub && strings.HasSuffix(h, "."+r.dom))) {
+	if !(r.all || h == r.dom || (r.sub && strings.HasSuffix(h, "."+r.dom))) {
 		return false
 	}
 	if len(r.types) == 0 {
@@ -526,6 +529,10 @@ func c10DrawName(rng *rand.Rand, g *c10Global, want string) (name string, qt uin
 			n = c10NameAround(rng, c10Pick(rng, g.doms))
 		}
 		qt = c10Pick(rng, c10QTypes)
+		if rng.Intn(25) == 0 && c10HostClass(g.Rules, ".", qt) == want {
+			// the root name (agdnet.NormalizeQueryDomain exists to let rules match `dig NS .`)
+			return ".", qt, true
+		}
 		if c10HostClass(g.Rules, n, qt) == want {
 			return c10MixCase(rng, n) + ".", qt, true
 		}
@@ -542,6 +549,26 @@ func c10ProfileRules(rng *rand.Rand, fqdn string, qt uint16, want string) (rules
 		parent = h[i+1:]
 	}
 	tn, on := c10TypeName[qt], c10TypeName[c10OtherType(rng, qt)]
+	if h == "" {
+		// the root name: only the match-everything expression reaches it
+		miss := []string{"/.*/$dnstype=" + on, "/.*/$dnstype=~" + tn, "||example.org^", "@@/.*/$dnstype=" + on, "root-servers.net"}
+		block := []string{"/.*/", "/.*/$dnstype=" + tn, "/.*/$dnstype=~" + on, "/.*/$dnstype=" + strings.ToLower(tn) + "|" + on}
+		exc := []string{"@@/.*/", "@@/.*/$dnstype=" + tn, "@@/.*/$dnstype=~" + on}
+		for i := rng.Intn(3); i > 0; i-- {
+			rules = append(rules, c10Pick(rng, miss))
+		}
+		switch want {
+		case "none":
+			if rng.Intn(4) == 0 {
+				rules = append(rules, c10Pick(rng, exc))
+			}
+		case "block":
+			rules = append(rules, c10Pick(rng, block))
+		case "exc":
+			rules = append(rules, c10Pick(rng, block), c10Pick(rng, exc))
+		}
+		return c10Shuffle(rng, rules)
+	}
 	// rules that do not match (name, qt)
 	miss := []string{
 		"||x" + h + "^",
